@@ -14,7 +14,7 @@ RULE = ('(S) Semiring.solve on every n x n system for n in {1,2} over {0,1/4,1/2
         'tensors; (M) multi_solve / multi_mv on 2 and 3 block indices with EVERY presence pattern of the k^2 blocks of A and '
         'k blocks of b, mixed block shapes (scalars, vectors, size-1, rank-2 indices), transpose on/off, both key orders, '
         'generic subcritical entries plus deviations making a diagonal block critical / supercritical / infinite, 4 '
-        'semirings, against the oracle on the assembled dense system; arguments compared bit-for-bit before and after. '
+        'semirings, against the oracle on the assembled dense system; (MR) multi_mv on rectangular block matrices whose row and column index sets share keys with blocks of different sizes: 3 shape pairs x all 16 presence patterns of A x all presence patterns of b (with +inf entries) x transpose x 4 semirings x 2 key orders, against the dense product; arguments compared bit-for-bit before and after. '
         'Non-trivial = system whose solution is not just b.')
 ASSUMPTIONS = ['Real/Log compared at rtol 1e-9 with the exact solution; infinities and zeros exact',
                'PatternedTensor.solve is compared with the dense semiring solver, which part (S) validates']
